@@ -12,6 +12,8 @@ EXTRA = {"quick": 250, "thorough": 5000}
 def run_cases(chk, binp, cases, pf_ok, pf):
     out = P.run_histories(binp, cases)
     byid = {c["id"]: c for c in cases}
+    for r in [r for r in out if r.get("crash")][:2]:
+        chk.violation("a validation after a recovered panic took the whole process down (%s)" % r["crash"], {"case": byid[r["id"]], "detail": r.get("detail", "")[-600:]})
     bad = [r for r in out if r["double_redeems"] or r["diffs"]]
     panicked = sum(1 for r in out if r["first_panicked"])
     for r in bad[:3]:
